@@ -91,6 +91,14 @@ func (e *Exec) patternIntrinsicHarness(fn *ssa.Function, name string) Intrinsic 
 			}
 			return ret1(st, e.nondetInt(e.nameArg(args[0]), lo.Val, hi.Val))
 		}
+	case "vNondetBigRange":
+		return func(e *Exec, st *State, fn *ssa.Function, args []Value, depth int) []Outcome {
+			lo, hi := e.bigGet(st, args[1]), e.bigGet(st, args[2])
+			if lo.Op != OpConst || hi.Op != OpConst {
+				unsupported("vNondetBigRange bounds must be concrete")
+			}
+			return ret1(st, e.newBig(st, e.nondetInt(e.nameArg(args[0]), lo.Val, hi.Val)))
+		}
 	case "vNondetBool":
 		return func(e *Exec, st *State, fn *ssa.Function, args []Value, depth int) []Outcome {
 			name := e.nameArg(args[0])
@@ -123,6 +131,7 @@ func (e *Exec) patternIntrinsicHarness(fn *ssa.Function, name string) Intrinsic 
 					s2 = st.Fork()
 				}
 				s2.PC = append(s2.PC, e.TS.Eq(v, e.TS.Int64(int64(i))))
+				s2.SplitTag += fmt.Sprintf("%s=%d;", name, i)
 				outs = append(outs, Outcome{Kind: OutReturn, St: s2, Ret: e.TS.Int64(int64(i))})
 			}
 			return outs
